@@ -890,8 +890,11 @@ def run(ctx):
                     else:
                         self.loaded = list(self.problem.individuals)
                         self.loaded_desc = [reload_desc(self.want[i]) for i in self.order]
+                        def norm(d):        # key order inside objects is not part of the property
+                            return (d["id"], d["state"], canon(d["vector"]), canon(d["costs"]), canon(d["costs_signed"]), canon(d["population_id"]),
+                                    canon(d["algorithm_id"]), canon(d["custom"]), canon({"d": d["features"]}), canon(d["parents"]), canon(d["children"]))
                         got = sorted((describe_ind(x) for x in self.loaded), key=lambda d: d["id"])
-                        if got != sorted(self.loaded_desc, key=lambda d: d["id"]):
+                        if [norm(d) for d in got] != [norm(d) for d in sorted(self.loaded_desc, key=lambda d: d["id"])]:
                             note_mismatch("the individuals rebuilt when the file is opened again in write mode are not those the model reloads",
                                           case, op_index=j, observed=json.dumps(got, default=str)[:600])
                 elif op["op"] == "sync":
